@@ -992,4 +992,28 @@ Theorem wait_defers_handle_data c b d : buf_inv b -> c_state c = Wait -> c_close
   handle_data c b d = Finished c (buf_add b d) [].
 Proof. intros I S Hc. rewrite (handle_data_hd c b d I), (wait_defers c b d I S Hc). reflexivity. Qed.
 
+(* ---------------------------------------------------------------- the upgrade hand-over *)
+(* On the client connection of a 101 / CONNECT exchange, send(ResponseEndOfMessage) itself turns the connection into a
+   tunnel and, in the same activation, passes on what the client pipelined behind its request (it was only buffered
+   while the state was wait).  Whoever sends that event must therefore be ready for tunnel data before it does:
+   HttpStream.flow_done installs and starts the child layer first. *)
+Theorem upgrade_end_of_message_flushes (c : conn) (b : rbuf) (sid : N) (rq : Req) (rs : Resp) (last half : bool) y ys :
+  c_role c = Server -> c_sid c = Some sid -> c_request c = Some rq -> c_response c = Some rs ->
+  c_request_done c = true -> after Server rq rs = MakePipe -> lstrip_crlf (b_data b) = y :: ys ->
+  exists c' o, Http1Seg.handle_send Req Resp server_head client_head is_connect after trailer true c b
+                 (SEndOfMessage sid last half) = Finished c' (mkBuf [] 0 0) (o ++ [OData sid (y :: ys)]) /\
+               c_state c' = Passthrough /\ (o = [] \/ o = [OSendLastChunk]).
+Proof.
+  intros Hr Hs Hq Hp Hd Ha Hl.
+  assert (Hne : b_data b <> []) by (intros E; rewrite E in Hl; discriminate).
+  unfold Http1Seg.handle_send. rewrite Hr. unfold Http1Seg.sid_of at 1. rewrite Hs, N.eqb_refl. cbn [negb].
+  rewrite Hq, Hp. unfold Http1Seg.mark_done. cbv zeta. cbn [c_request_done c_response_done c_request c_response c_role Http1Seg.set_done_flags].
+  rewrite Hd, Hq, Hp, Hr, Ha. cbn [orb andb]. rewrite orb_true_r. cbn [andb].
+  unfold Http1Seg.make_pipe. assert (Hb : buf_bool b = true) by (apply buf_bool_true; exact Hne). rewrite Hb.
+  rewrite (at_most_all _ Hne), Hl. cbn [Http1Seg.continue].
+  eexists _, (if last then [OSendLastChunk] else []). split.
+  - unfold Http1Seg.sid_of. cbn [c_sid Http1Seg.set_state Http1Seg.set_done_flags]. rewrite Hs. destruct last; reflexivity.
+  - split; [reflexivity|destruct last; auto].
+Qed.
+
 End P.
